@@ -17,11 +17,12 @@ void cstl_raw_array_reverse(void * const arr,
                             cstl_swap_func_t * const swap,
                             void * const t)
 {
-    int i, j;
+    size_t i, j;
 
-    for (i = 0, j = count - 1; i < j; i++, j--) {
+    /* j is one past the element to be exchanged with the one at i */
+    for (i = 0, j = count; i + 1 < j; i++, j--) {
         swap(__cstl_raw_array_at(arr, size, i),
-             __cstl_raw_array_at(arr, size, j),
+             __cstl_raw_array_at(arr, size, j - 1),
              t,
              size);
     }
@@ -33,16 +34,17 @@ ssize_t cstl_raw_array_search(const void * const arr,
                               cstl_compare_func_t * const cmp,
                               void * const priv)
 {
-    int i, j;
+    size_t i, j;
 
-    for (i = 0, j = count - 1; i <= j;) {
-        const int n = (i + j) / 2;
+    /* [i, j) is the part of the array that may still hold a match */
+    for (i = 0, j = count; i < j;) {
+        const size_t n = i + (j - i - 1) / 2;
         const int eq = cmp(ex, __cstl_raw_array_at(arr, size, n), priv);
 
         if (eq == 0) {
             return n;
         } else if (eq < 0) {
-            j = n - 1;
+            j = n;
         } else {
             i = n + 1;
         }
